@@ -318,6 +318,9 @@ def _get_minmax_from_sparse(x_grp):
     (min_val, max_val)
     """
     data_dataset = x_grp['data']
+    if data_dataset.shape[0] == 0:
+        # no stored element: every value of the matrix is zero
+        return (0, 0)
     if data_dataset.chunks is None:
         data_dataset = data_dataset[()]
         return (data_dataset.min(), data_dataset.max())
@@ -488,6 +491,8 @@ def _is_sparse_x_integers(
     with h5py.File(h5ad_path, 'r') as src:
         data = src[f'{layer_key}/data']
         if np.issubdtype(data.dtype, np.integer):
+            return True
+        if data.shape[0] == 0:
             return True
         chunk_size = data.chunks
 
